@@ -477,6 +477,15 @@ class Exec(ExprMixin, CallMixin):
         from .ty import VRange
         if isinstance(it, VRange):
             return self._for_range(st, fr, it)
+        if isinstance(it, VAny) and isinstance(st.target, ast.Name) and fr.contract is not None \
+                and fr.contract.types.get(st.target.id) in (Str, Any):
+            # iterating a dynamically typed value: the declared type of the loop variable selects the list view; that the
+            # value really is such a list is a safety obligation (iterating anything else is a TypeError or worse)
+            from .ty import ValSort, coerce
+            ety = fr.contract.types[st.target.id]
+            self.safety(ValSort.is_LS(it.t) if ety is Str else ValSort.is_LV(it.t),
+                        f"iterate dynamic value as list[{'str' if ety is Str else 'Any'}]", st.lineno)
+            it = coerce(VAny(it.t), SeqOf(ety))
         if not isinstance(it, VList):
             raise Unsupported(f"for-loop over {it} at line {st.lineno}")
         k = self._loop_ordinal(st, fr)
@@ -720,7 +729,7 @@ class Exec(ExprMixin, CallMixin):
             v.seq = z3.Const(fresh_name(base), z3.SeqSort(v.elem.sort()))
         elif isinstance(v, VDict):
             v.t = z3.Const(fresh_name(base), v.t.sort())
-        elif isinstance(v, VRec) and depth < 3:
+        elif isinstance(v, VRec) and depth < 6:
             for k, x in list(v.fields.items()):
                 if isinstance(x, (VList, VDict, VRec)):
                     self.havoc_value(x, f"{base}.{k}", depth + 1)
@@ -735,7 +744,7 @@ class Exec(ExprMixin, CallMixin):
                         if isinstance(x, VNone) or isinstance(x.py, (int, str, bool, float, tuple, frozenset, set, list, dict)):
                             raise Unsupported(f"havoc of field {base}.{k} holding {x}: declare its type in the contract's record type")
         elif isinstance(v, VRec):
-            raise Unsupported(f"havoc of record {base} nested deeper than 3 levels")
+            raise Unsupported(f"havoc of record {base} nested deeper than 6 levels")
 
     # ------------------------------------------------------------------ spec evaluation helpers
     def _bind_spec_args(self, contract, fn_node, fr, extra):
